@@ -2,7 +2,7 @@
    exactly when triggered; skip propagation; input = merge of the routed data predecessors.
    Only statements: each theorem is proved in Proofs/Dag*.v about the definitions of Model/Graph.v that
    Corr/C02.v evaluates (dag_report_values / dag_report_deps / dag_report_skip / dag_get, run_flat / run). *)
-From Eino Require Import Base.Util Model.Graph Model.DagValidate Proofs.DagChan Proofs.DagInv Proofs.DagLoop Proofs.DagTrig Proofs.DagVals Proofs.DagSkip Proofs.DagTrigLoop Proofs.DagDen Proofs.DagValidate Proofs.DagFuel Proofs.DagLegacy Proofs.DagExamples.
+From Eino Require Import Base.Util Model.Graph Model.DagValidate Model.DagSpec Proofs.DagChan Proofs.DagInv Proofs.DagLoop Proofs.DagTrig Proofs.DagVals Proofs.DagSkip Proofs.DagTrigLoop Proofs.DagDen Proofs.DagDenFun Proofs.DagValidate Proofs.DagFuel Proofs.DagLegacy Proofs.DagExamples.
 Open Scope N_scope.
 
 (* ================= channel level (compose/dag.go) ================= *)
@@ -415,6 +415,115 @@ Proof.
     + eapply reach_step; [eapply reach_step; [eapply reach_step; [eapply reach_step; [eapply reach_init|]|]|]|]; vm_compute; reflexivity.
     + vm_compute. reflexivity.
     + vm_compute. reflexivity.
+Qed.
+
+(* ---------------------------------------------------------------------------------------------------
+   The denotation as an EXECUTABLE function (Model/DagSpec.v, Proofs/DagDenFun.v; evaluated by Corr/C02.v on the
+   cases of the harness and compared with the implementation directly).
+     den_run ord       evaluates every node once, in the topological order ord (topo_ok: checkable; for the graphs
+                       of the harness node_order g = ascending keys), by the rules of the property text: a node
+                       runs iff a control predecessor that ran routed to it (a node with data-only inputs
+                       exclusively: iff all its data predecessors ran), on the merge of the outputs of the data
+                       predecessors that ran and routed data to it; otherwise it is skipped. Table entries:
+                       DRan out | DSkip | DFail es (the body fails on that input) | DStuck (behind a failure).
+     den_trig T t      TRun w (t runs on input w) | TSkip | TStuck;   den_result ord = the value assembled for END.
+   The theorems below are about runner.run as a whole (run_flat), for batch and eager mode and EVERY schedule;
+   nout n v is what executing node n on v yields (node bodies / nested graphs that are functions of their input). *)
+
+(* dag_result_is_den: a run that finishes returns the value of the denotation *)
+Theorem dag_result_is_den : forall V St (ops : vops V) g,
+  g_mode g = Dag -> NoDup (map n_key (g_nodes g)) -> api_built g ->
+  forall (nout : node -> V -> tres V) x exec sub sched p,
+  (forall i k v s, Forall (fun e : logentry V => fst e <> p) (outcome_log V (fst (sub i (p ++ [k]) v s)))) ->
+  (forall n v s, fst (fst (run_task V St ops exec sub p n v s)) = nout n v) ->
+  forall s v lg s' ord,
+  (exists q, gpred g kEND q) -> topo_ok g ord = true ->
+  run_flat V St ops exec sub sched p g x s = (Done v lg, s') ->
+  den_result V ops g nout x ord = Some v.
+Proof. exact run_flat_done_den. Qed.
+Print Assumptions dag_result_is_den.
+
+(* whatever the outcome of the run (finished or failed): every execution in the log of the instance is of a
+   node the denotation triggers, on the input the denotation assembles for it *)
+Theorem dag_executed_is_den : forall V St (ops : vops V) g,
+  g_mode g = Dag -> NoDup (map n_key (g_nodes g)) -> api_built g ->
+  forall (nout : node -> V -> tres V) x exec sub sched p,
+  (forall i k v s, Forall (fun e : logentry V => fst e <> p) (outcome_log V (fst (sub i (p ++ [k]) v s)))) ->
+  (forall n v s, fst (fst (run_task V St ops exec sub p n v s)) = nout n v) ->
+  forall s o s' ord t w,
+  topo_from g [kSTART] ord = true -> In t ord ->
+  run_flat V St ops exec sub sched p g x s = (o, s') ->
+  In (p ++ [t], w) (own_events V p (outcome_log V o)) ->
+  den_trig V ops g (den_run V ops g nout x ord) t = TRun w.
+Proof. exact run_flat_executed_den. Qed.
+Print Assumptions dag_executed_is_den.
+
+(* FAILING RUNS, every schedule: a node failure the run reports (an error with a node path; the engine's own
+   errors carry none) is a failure of the denotation: that node is triggered by den and its body fails, with
+   that error, on the input den assembles for it *)
+Theorem dag_failure_is_den : forall V St (ops : vops V) g,
+  g_mode g = Dag -> NoDup (map n_key (g_nodes g)) -> api_built g ->
+  forall (nout : node -> V -> tres V) x exec sub sched p,
+  (forall i k v s, Forall (fun e : logentry V => fst e <> p) (outcome_log V (fst (sub i (p ++ [k]) v s)))) ->
+  (forall n v s, fst (fst (run_task V St ops exec sub p n v s)) = nout n v) ->
+  forall s es lg s' ord,
+  topo_from g [kSTART] ord = true ->
+  (forall k n, find_node g k = Some n -> k <> kSTART -> In k ord) ->
+  run_flat V St ops exec sub sched p g x s = (Fail es lg, s') ->
+  forall e, In e es -> e_path e <> [] ->
+  exists k esk, stat V (den_run V ops g nout x ord) k = DFail esk /\ In e esk.
+Proof. exact run_flat_fail_den. Qed.
+Print Assumptions dag_failure_is_den.
+
+(* in every state the loop reaches: resolved => den gives that output; skipped => den skips (hence a node den
+   skips is never executed, and a node den runs is never skipped) *)
+Theorem dag_resolved_is_den : forall V St (ops : vops V) g,
+  g_mode g = Dag -> NoDup (map n_key (g_nodes g)) -> api_built g ->
+  forall (nout : node -> V -> tres V) x exec sub sched p,
+  (forall i k v s, Forall (fun e : logentry V => fst e <> p) (outcome_log V (fst (sub i (p ++ [k]) v s)))) ->
+  (forall n v s, fst (fst (run_task V St ops exec sub p n v s)) = nout n v) ->
+  forall s0 ls Rv ord k out,
+  reach V St ops g exec sub sched p x s0 ls Rv -> topo_from g [kSTART] ord = true -> In k (kSTART :: ord) ->
+  In (k, out) Rv -> stat V (den_run V ops g nout x ord) k = DRan out.
+Proof. exact reach_den_resolved. Qed.
+Print Assumptions dag_resolved_is_den.
+
+Theorem dag_skipped_is_den : forall V St (ops : vops V) g,
+  g_mode g = Dag -> NoDup (map n_key (g_nodes g)) -> api_built g ->
+  forall (nout : node -> V -> tres V) x exec sub sched p,
+  (forall i k v s, Forall (fun e : logentry V => fst e <> p) (outcome_log V (fst (sub i (p ++ [k]) v s)))) ->
+  (forall n v s, fst (fst (run_task V St ops exec sub p n v s)) = nout n v) ->
+  forall s0 ls Rv ord k,
+  reach V St ops g exec sub sched p x s0 ls Rv -> topo_from g [kSTART] ord = true -> In k ord ->
+  skipped V (ls_chans V St ls) k -> stat V (den_run V ops g nout x ord) k = DSkip.
+Proof. exact reach_den_skipped. Qed.
+Print Assumptions dag_skipped_is_den.
+
+(* non-vacuity: ex_dag / ex_wf in key order; the runs of the Examples above finish with den's result, node 3 is
+   skipped and node 5 runs on the output of 4 alone; with a failing node 6 the run fails and den says DFail *)
+Example den_nonvacuous :
+  topo_ok ex_dag (node_order ex_dag) = true
+  /\ (forall k n, find_node ex_dag k = Some n -> k <> kSTART -> In k (node_order ex_dag))
+  /\ (exists q, gpred ex_dag kEND q)
+  /\ den_result value tree_ops ex_dag ex_nout ex_input_c (node_order ex_dag)
+     = Some (VMap [(7, VMap [(5, VMap [(4, VMap [(2, ex_input_c)])]); (6, VMap [(4, VMap [(2, ex_input_c)])])])])
+  /\ fst (run_flat value unit tree_ops (tree_exec []) ex_nosub sched_first [] ex_dag ex_input_c tt)
+     = Done (VMap [(7, VMap [(5, VMap [(4, VMap [(2, ex_input_c)])]); (6, VMap [(4, VMap [(2, ex_input_c)])])])])
+            (outcome_log value (fst (run_flat value unit tree_ops (tree_exec []) ex_nosub sched_first [] ex_dag ex_input_c tt)))
+  /\ stat value (den_run value tree_ops ex_dag ex_nout ex_input_c (node_order ex_dag)) 3 = DSkip
+  /\ den_trig value tree_ops ex_dag (den_run value tree_ops ex_dag ex_nout ex_input_c (node_order ex_dag)) 5
+     = TRun (VMap [(4, VMap [(2, ex_input_c)])])
+  /\ (let nf := fun n v => fst (fst (run_task value unit tree_ops (tree_exec [([6], 1, 0, 7)]) ex_nosub [] n v tt)) in
+      stat value (den_run value tree_ops ex_wf nf ex_input_c (node_order ex_wf)) 6 = DFail [ {| e_class := eNode 7; e_path := [6] |} ]
+      /\ exists lg, fst (run_flat value unit tree_ops (tree_exec [([6], 1, 0, 7)]) ex_nosub sched_lastE [] ex_wf ex_input_c tt)
+                    = Fail [ {| e_class := eNode 7; e_path := [6] |} ] lg).
+Proof.
+  split; [vm_compute; reflexivity|]. split.
+  { intros k n Hf Hne. unfold find_node in Hf. apply find_some in Hf. destruct Hf as [Hin Hk]. apply N.eqb_eq in Hk. subst k.
+    simpl in Hin. repeat (destruct Hin as [<-|Hin]; [first [now elim Hne|vm_compute; tauto]|]). destruct Hin. }
+  split; [exists 7; left; vm_compute; tauto|].
+  split; [vm_compute; reflexivity|]. split; [vm_compute; reflexivity|]. split; [vm_compute; reflexivity|].
+  split; [vm_compute; reflexivity|]. split; [vm_compute; reflexivity|]. eexists. vm_compute. reflexivity.
 Qed.
 
 (* ---------------------------------------------------------------------------------------------------
